@@ -38,18 +38,19 @@ def scenarios(behs, tier, seed):
     rnd = random.Random(seed)
     thorough = tier == "thorough"
     cuts = ["whole", "byte", "rand"] + (["rand", "rand"] if thorough else [])
-    per = len(OPTSETS) if thorough else 4
+    per = len(OPTSETS) if thorough else 16
     res = []
-    free_budget = 400 if thorough else 9
+    free_budget = 400 if thorough else 16
     for bi, beh in enumerate(behs):
         silent = beh[-1]["k"] == "silence"
         for ci, cut in enumerate(cuts):
             if thorough:
                 chosen = list(range(len(OPTSETS)))
             else:
-                # rotate through the option sets so that all 32 are used many times
-                first = (bi * 5 + ci * 11 + seed) % len(OPTSETS)
-                chosen = [(first + j * 9) % len(OPTSETS) for j in range(per)]
+                # half-fraction of the 2^5 option sets (even or odd parity of the five choices, alternating
+                # with behaviour and cut): every combination of any four options occurs for each (behaviour, cut)
+                par = (bi + ci + seed) % 2
+                chosen = [i for i in range(len(OPTSETS)) if bin(i).count("1") % 2 == par][:per]
             free_used = False
             for oi in chosen:
                 auth, locale, info, vhost, tmo = OPTSETS[oi]
@@ -87,10 +88,11 @@ def run(tier, seed, t0):
     # design spec: every server behaviour over the 18-event alphabet up to the bound, with and without a
     # configured timeout; the implementation-shaped defect switch must break ResultMapping (anti-vacuity)
     mcf = [ex.submit(vlib.run_mc, "MC_Handshake", "MC_Handshake.cfg", workers=2, xmx="2g"),
+           ex.submit(vlib.run_mc, "MC_Handshake", "MC_Handshake_9.cfg", workers=2, xmx="2g"),
            ex.submit(vlib.run_mc, "MC_Handshake", "MC_Handshake_bug.cfg", workers=1, xmx="1g",
                      expect_violation="ResultMapping")]
     if thorough:
-        mcf.append(ex.submit(vlib.run_mc, "MC_Handshake", "MC_Handshake_9.cfg", workers=2, xmx="2g"))
+        mcf.append(ex.submit(vlib.run_mc, "MC_Handshake", "MC_Handshake_12.cfg", workers=2, xmx="2g"))
     try:
         tdir = vlib.outdir(PROP, "traces", clean=True)
         behs, info = vlib.gen_cases("GEN_Handshake", "GEN_Handshake_6.cfg" if thorough else "GEN_Handshake.cfg")
@@ -140,7 +142,7 @@ def run(tier, seed, t0):
              "property) is run only %d times with a 300 ms wait. non-trivial = behaviour of >= 2 events (the client got "
              "past the first event); distinct = distinct (behaviour, option set, cut, read cycle)"
              % (6 if thorough else 4, len(behs), nbeh_nontrivial,
-                "all 32 per behaviour and cut" if thorough else "4 per behaviour and cut, rotating through all 32",
+                "all 32 per behaviour and cut" if thorough else "a half-fraction of 16 per behaviour and cut - every combination of any four of the five options - alternating between the two halves",
                 " (3 different random cycles)" if thorough else "", results.get("hang (allowed: silence, no timeout)", 0)),
         samples=samples, verdict=v, exhaustive=True,
         extra={"trace_records_validated": consumed, "behaviours_generated": len(behs), "option_sets": len(OPTSETS),
@@ -149,7 +151,7 @@ def run(tier, seed, t0):
                "hangs_where_allowed": tot("free_hangs"), "panics_seen": tot("panics"), "driver_processes": procs,
                "exhaustive_dimension": "all server behaviours of <= %d events that end the attempt (model: all behaviours "
                                        "of <= %d events, with and without timeout)" % (6 if thorough else 4,
-                                                                                      9 if thorough else 6)},
+                                                                                      12 if thorough else 9)},
         assumptions=["hang limit 5 s quick / 20 s thorough per call (normal latency < 5 ms, timeout cases 50-60 ms)",
                      "events are whole frames: a frame cut short by EOF is C05/C06 territory",
                      "Close is judged as 'instead of OpenOk' only after TuneOk/Open; a Close earlier is an out-of-order "
